@@ -1,5 +1,6 @@
 import Parmcb.Model.TreeCheck
 import Parmcb.Lemmas.Trees
+import Parmcb.Lemmas.Dijkstra
 /-!
 # C12 — shortest-path trees are exact and mutually consistent
 
@@ -10,8 +11,9 @@ answer is determined); the executable certificate `checkSPT`/`checkFirst` is SOU
 reports exactly the true shortest-path distances, has no node for unreachable vertices, its predecessor
 edges form root paths of those lengths and `first` is the child of the root on the path.  The driver runs
 the certificate on every tree the C++ builds, so exactness is verified per run with a proved checker.
-`c12_dijkstra_partial` (not proved): that the literal Dijkstra model always passes its own certificate, and
-the S-level uniqueness theorems behind mutual consistency; consistency is checked per run (`checkConsistent`).
+`c12_dijkstra` (below): the literal Dijkstra model always passes its own certificate.
+`c12_consistency_partial` (not proved): the S-level uniqueness theorems behind mutual consistency (reversal,
+sub-paths); consistency is checked per run (`checkConsistent`).
 -/
 namespace Parmcb.C12
 open Parmcb
@@ -66,5 +68,13 @@ theorem c12_first (g : Graph) (hs : g.simpleB = true) (hp : g.positiveB = true) 
     ∃ e, (rootPath g t g.n v).getLast? = some e ∧ g.other e (t.first.getD v 0) = t.source ∧
       g.inc (t.first.getD v 0) e = true :=
   TreesL.first_spec g hs hp t hc hf v hv hne d hd
+
+/-- **the literal Dijkstra model is correct**: for every simple graph with positive weights and every source,
+the tree built by the model of `lex_dijkstra` + `SPTree::initialize` passes the certificate — hence (by the
+three theorems above) reports exact distances, root paths and first labels.  The C++ trees are compared with
+these field by field. -/
+theorem c12_dijkstra (g : Graph) (hs : g.simpleB = true) (hp : g.positiveB = true) (s : Nat) (hsn : s < g.n) :
+    checkSPT g (buildTree g s) = true ∧ checkFirst g (buildTree g s) = true :=
+  ⟨lexDijkstra_checkSPT g hs hp s hsn, lexDijkstra_checkFirst g hs hp s hsn⟩
 
 end Parmcb.C12
